@@ -65,7 +65,7 @@ def run(rep, tier):
     nh = len([x for x in allrecs if x["e"] == "Hist"])
     npct = len([x for x in allrecs if x["e"] == "Pct"])
     nq = sum(len(x["queries"]) for x in allrecs if x["e"] == "Hist")
-    if nh < 500 or npct < 500:
+    if not rep.violations and (nh < 500 or npct < 500):
         raise CheckError("stats driver coverage too small")
     rep.add(traces_validated_against_impl=ok, records=total, histograms=nh, percentile_calls=npct, bin_queries=nq, exhaustive=True)
     rep.sample([x for x in allrecs if x["e"] == "Hist" and len(x["vals"]) > 2][0])
